@@ -183,6 +183,12 @@ let run_case (toks : string list) : string option =
         | Ok b -> hex b
         | Err _ -> "err"
         | Fault _ -> "fault:panic")
+  | ["c12optmut"; buf] ->
+    (* every octet of the window get_options_raw_mut hands out is complemented *)
+    Some (match ipv4_options_mut_map (fun x -> z_of_int (255 - int_of_z x)) (unhex buf) with
+        | Ok b -> hex b
+        | Err _ -> "err"
+        | Fault _ -> "fault:panic")
   | [("new" | "new_view" as op); ty; len] ->
     let (n, nv) = List.assoc ty constructors in
     let buf = List.init (int_of_string len) (fun _ -> z_of_int 0) in
